@@ -136,6 +136,8 @@ namespace cnl {
                          ? _impl::overflow_operator<
                                  Operator, _impl::common_overflow_tag_t<LhsTag, RhsTag>,
                                  _impl::polarity::negative>{}(lhs, rhs)
+                 // zero shifted by any amount is zero; do not perform an over-wide shift
+                 : !lhs  ? _impl::op_result<Operator, Lhs, Rhs>{}
                          : Operator{}(lhs, rhs);
         }
     };
